@@ -1,0 +1,66 @@
+//go:build verif
+
+package stack
+
+// Hooks for the verification harness under /verif. They only give access to
+// unexported functions; they are compiled with -tags verif only and add no
+// behaviour.
+
+// VerifStepper feeds lines to the scanner's state machine one at a time.
+type VerifStepper struct {
+	s scanningState
+}
+
+// NewVerifStepper returns a state machine in its initial state, as
+// ScanSnapshot creates it.
+func NewVerifStepper() *VerifStepper {
+	return &VerifStepper{s: scanningState{Snapshot: &Snapshot{}, state: looking}}
+}
+
+// Step runs scan on one line.
+func (v *VerifStepper) Step(line []byte) (bool, error) { return v.s.scan(line) }
+
+// State returns the numerical value of the current state.
+func (v *VerifStepper) State() int { return int(v.s.state) }
+
+// Prefix returns the indentation established by the first header.
+func (v *VerifStepper) Prefix() []byte { return v.s.prefix }
+
+// Goroutines returns the goroutines found so far.
+func (v *VerifStepper) Goroutines() []*Goroutine { return v.s.Goroutines }
+
+// VerifLess is Signature.less.
+func VerifLess(a, b *Signature) bool { return a.less(b) }
+
+// VerifStackLess is Stack.less.
+func VerifStackLess(a, b *Stack) bool { return a.less(b) }
+
+// VerifEqual is Signature.equal.
+func VerifEqual(a, b *Signature) bool { return a.equal(b) }
+
+// VerifSimilar is Signature.similar.
+func VerifSimilar(a, b *Signature, s Similarity) bool { return a.similar(b, s) }
+
+// VerifMerge is Signature.merge.
+func VerifMerge(a, b *Signature) *Signature { return a.merge(b) }
+
+// VerifAtou is atou.
+func VerifAtou(s []byte) (int, bool) { return atou(s) }
+
+// VerifParseArgs is parseArgs.
+func VerifParseArgs(line []byte) (Args, error) { return parseArgs(line) }
+
+// VerifReadLines returns what reader.readLine returns until it fails.
+func VerifReadLines(in interface{ Read([]byte) (int, error) }) ([][]byte, error) {
+	r := reader{rd: in}
+	var out [][]byte
+	for {
+		d, err := r.readLine()
+		if len(d) != 0 {
+			out = append(out, append([]byte{}, d...))
+		}
+		if err != nil {
+			return out, err
+		}
+	}
+}
